@@ -4,7 +4,7 @@
    correspondence run over heading partitions, stored column orders and operand
    representations.  `unnest` has no working surface syntax in the pinned tree
    (compileArrow panics "unfinished"), so it is outside the claim (C10 finding). *)
-From Arrai Require Import Base.Val Spec.SetAlg Eval.Interp Proofs.ValOrder Proofs.SetAlgP Proofs.RelP.
+From Arrai Require Import Base.Val Spec.SetAlg Eval.Interp Proofs.ValOrder Proofs.SetAlgP Proofs.RelP Proofs.RankP.
 
 Theorem C04_join_is_the_set_of_agreeing_combinations :
   forall op a b ha hb r,
@@ -86,3 +86,27 @@ Proof.
   - apply single_nest_operator_is_single_nest_data, Ha.
 Qed.
 Print Assumptions C04_operators_are_these_functions.
+
+(* rank: the value of `a rank f` is the set of the rows of a, each extended - for every attribute k of its key
+   tuple f(row) - with the number of rows whose k is strictly smaller (ties share a rank); one result row per
+   source row, nothing else; for every operand, key function, scope and fuel *)
+Theorem C04_rank_is_these_rows :
+  forall fuel rho a fn m l cenv p body r,
+    eval fuel rho a = Ok (D (VSet (m :: l))) -> eval fuel rho fn = Ok (Clos cenv p body) ->
+    eval (S fuel) rho (ERank a fn) = Ok (D r) ->
+    exists keyed rows, mapM (clos_key fuel cenv p body) (m :: l) = Ok keyed /\ rank_rows keyed = Ok rows /\ r = mkset rows.
+Proof. exact eval_rank_characterised. Qed.
+Print Assumptions C04_rank_is_these_rows.
+
+Theorem C04_rank_rows_one_per_source_row :
+  forall keyed rows, rank_rows keyed = Ok rows ->
+    length rows = length keyed /\
+    forall i tk, nth_error keyed i = Some tk ->
+      exists ranks, mapM (rank_of keyed) (snd tk) = Ok ranks /\ nth_error rows i = Some (build_tuple (fst tk ++ ranks)).
+Proof. exact rank_rows_rowwise. Qed.
+Print Assumptions C04_rank_rows_one_per_source_row.
+
+Theorem C04_rank_counts_strictly_smaller_keys :
+  forall keyed k x r, rank_of keyed (k, VNum x) = Ok r -> r = (k, vint (Z.of_nat (count_smaller keyed k x))).
+Proof. exact rank_of_is_count. Qed.
+Print Assumptions C04_rank_counts_strictly_smaller_keys.
